@@ -123,7 +123,45 @@ def gen_op(rng, spec, guarded=True):
     return None
 
 
+def corner_ops(rng, spec, guarded):
+    """edits aimed at the legal corners the generator plants (specgen corner_topologies): giving time to a
+    journey in which no time is spent, changing one of several equal-valued inputs, placing an idle job"""
+    ops = []
+    used = {s_ for p in spec["system"]["usage_patterns"] for s_ in spec["journeys"][spec["patterns"][p]["usage_journey"]]["uj_steps"]}
+    for sn in used:
+        if spec["steps"][sn]["user_time_spent"]["m"] == 0:
+            ops.append({"op": "setq", "kind": "steps", "name": sn, "param": "user_time_spent",
+                        "value": {"m": rng.choice([0.3, 12.5]), "u": rng.choice(["min", "hour"])}})
+    for kind, param in (("countries", "average_carbon_intensity"), ("networks", "bandwidth_energy_intensity"), ("devices", "power"),
+                        ("jobs", "data_transferred"), ("servers", "average_carbon_intensity")):
+        names = list(spec[kind])
+        for a in names[1:]:
+            if param in spec[kind][a] and spec[kind][a][param] == spec[kind][names[0]].get(param):
+                v = spec[kind][a][param]
+                ops.append({"op": "setq", "kind": kind, "name": a, "param": param, "value": {"m": round(v["m"] * rng.choice([3, 0.5]), 9), "u": v["u"]}})
+    placed = {j for s_ in spec["steps"].values() for j in s_["jobs"]}
+    for jn in spec["jobs"]:
+        if jn not in placed and used:
+            sn = rng.choice(sorted(used))
+            ops.append({"op": "listop", "kind": "steps", "name": sn, "attr": "jobs", "method": "append", "args": [jn]})
+    if not ops:
+        return None
+    op = rng.choice(ops)
+    if guarded and op["op"] == "listop":
+        sp2 = copy.deepcopy(spec)
+        tmp = Live.__new__(Live)
+        tmp.spec = sp2
+        tmp.mirror(op)
+        if history.has_shared_job(sp2):
+            return None
+    return op
+
+
 def gen_op_once(rng, spec, guarded, shared):
+    if rng.random() < 0.35:
+        op = corner_ops(rng, spec, guarded)
+        if op and not (guarded and shared and op["kind"] not in ("servers", "storages", "networks", "devices")):
+            return op
     if rng.random() < 0.2:
         # several inputs changed in one update (grouped ModelingUpdate)
         kinds = ["servers", "storages", "networks", "devices"] if (guarded and shared) else None
@@ -174,21 +212,31 @@ def edit_vs_rebuild_shard(args):
     for h in range(n_hist):
         spec = specgen.gen_safe_spec(rng, realsys.unit_info, **genkw)
         if guarded and h % 2 == 0:
-            for _ in range(60):
-                if not history.has_shared_job(spec):
-                    break
-                spec = specgen.gen_safe_spec(rng, realsys.unit_info, **genkw)
+            if history.has_shared_job(spec):
+                spec = specgen.unshare_jobs(spec)      # own journey, steps and jobs per usage pattern
+        cornered = (h % 4 == 1)
+        if cornered:
+            sp2 = specgen.plant_corners(spec, rng)
+            if specgen.spec_is_safe(sp2, realsys.unit_info) and not (guarded and history.has_shared_job(sp2)):
+                spec = sp2
+            else:
+                cornered = False
         try:
             with watchdog(60):
                 live = Live(spec)
         except Exception as e:  # noqa
             continue
         out["histories"] += 1
+        out["cornered"] = out.get("cornered", 0) + int(cornered)
         out["shared"] += int(history.has_shared_job(spec))
         initial = totals_snapshot(live.rs.system)
         hist_ops = []
         for step in range(n_ops):
-            op = gen_op(rng, live.spec, guarded)
+            op = None
+            if cornered and step < 2:
+                op = corner_ops(rng, live.spec, guarded)
+            if op is None:
+                op = gen_op(rng, live.spec, guarded)
             if op is None or not safe_after(live, op):
                 continue
             before_tot = totals_snapshot(live.rs.system)
@@ -289,10 +337,8 @@ def kgraph_shard(args):
     for i in range(n):
         spec = specgen.gen_safe_spec(rng, realsys.unit_info, **genkw)
         if i % 2 == 0:
-            for _ in range(60):
-                if not history.has_shared_job(spec):
-                    break
-                spec = specgen.gen_safe_spec(rng, realsys.unit_info, **genkw)
+            if history.has_shared_job(spec):
+                spec = specgen.unshare_jobs(spec)      # own journey, steps and jobs per usage pattern
         try:
             with watchdog(60):
                 live = Live(spec)
@@ -396,6 +442,56 @@ def kgraph_shard(args):
                     out["rejected_guarded"].append({"why": f"verified checker rejects the update order of the grouped update {names}", "spec": spec, "ops": ops})
         if len(out["samples"]) < 1:
             out["samples"].append({"nodes": len(nodes), "start_nodes": len(starts), "grouped": len(groups), "ops": [op_label(o) for o in ops]})
+    return out
+
+
+def live_accounting_shard(args):
+    """C02 on systems reached by edits: after a short accepted history (corner edits first) the accounting identities
+    are evaluated on the *live* system, not on a rebuild"""
+    seed, n, genkw = args
+    rng = random.Random(seed)
+    out = {"cases": 0, "violations": [], "ops": {}, "evals": 0, "samples": []}
+    for i in range(n):
+        spec = specgen.gen_safe_spec(rng, realsys.unit_info, **genkw)
+        spec = specgen.unshare_jobs(spec)
+        if i % 2 == 0:
+            sp2 = specgen.plant_corners(spec, rng)
+            if specgen.spec_is_safe(sp2, realsys.unit_info) and not history.has_shared_job(sp2):
+                spec = sp2
+        try:
+            with watchdog(60):
+                live = Live(spec)
+        except Exception:  # noqa
+            continue
+        ops = []
+        failed = False
+        for step in range(rng.randint(1, 3)):
+            op = corner_ops(rng, live.spec, True) if step == 0 else None
+            if op is None:
+                op = gen_op(rng, live.spec, True)
+            if op is None or not safe_after(live, op):
+                continue
+            if live.apply(op)[0] == "err":
+                failed = True
+                break
+            ops.append(op)
+            out["ops"][op_label(op)] = out["ops"].get(op_label(op), 0) + 1
+        if failed or not ops:
+            continue
+        out["cases"] += 1
+        names = live.reachable_names()
+        obs = {k: v for k, v in live.rs.observe().items() if k[0] in names}
+        try:
+            vs, ev = sysoracles.accounting(live.spec, "ok", obs, live.rs, rng)
+        except KeyError:
+            continue       # an object left the system during the history: nothing to account for
+        out["evals"] += ev
+        for v in vs:
+            v["signature"] = v["signature"] + ":after-edits"
+            v["replay"] = {"spec": spec, "ops": ops, "oracle": "accounting-live"}
+            out["violations"].append(v)
+        if len(out["samples"]) < 1:
+            out["samples"].append({"history": [op_label(o) for o in ops]})
     return out
 
 
